@@ -611,12 +611,12 @@ func (bridge *ExprBridge) convertLikeToFunction(field, pattern string) string {
 		}
 		return fmt.Sprintf("%s contains '%s'", field, inner)
 	} else if strings.HasPrefix(pattern, "%") && len(pattern) > 1 {
-		// %pattern -> endsWith操作符
-		suffix := strings.TrimPrefix(pattern, "%")
+		// %pattern -> endsWith操作符（连续的 % 等价于一个 %，全部去掉）
+		suffix := strings.TrimLeft(pattern, "%")
 		return fmt.Sprintf("%s endsWith '%s'", field, suffix)
 	} else if strings.HasSuffix(pattern, "%") && len(pattern) > 1 {
-		// pattern% -> startsWith操作符
-		prefix := strings.TrimSuffix(pattern, "%")
+		// pattern% -> startsWith操作符（连续的 % 等价于一个 %，全部去掉）
+		prefix := strings.TrimRight(pattern, "%")
 		return fmt.Sprintf("%s startsWith '%s'", field, prefix)
 	} else if pattern == "%" {
 		// 单独的%匹配任何字符串
